@@ -1,6 +1,7 @@
 import GwModel.MergeDef
 import GwModel.MergeSchema
 import GwModel.Gen.Facts
+import GwModel.MergeSig
 /-! # C09 — Incompatible definitions are rejected with an error, never guessed or a crash
 
 Model: `Mg.mergeGroup` folds `mergeDef` (kind guard; object fields unioned with equal signatures on common
@@ -50,5 +51,20 @@ theorem group_failure_fails_merge (g : Nat × List Def) (gs : List (Nat × List 
 example : mergeGroup [⟨1, .object, [⟨0, 7⟩], []⟩, ⟨1, .input, [⟨0, 7⟩], []⟩] = none ∧
           mergeGroup [⟨2, .enum, [⟨0, 0⟩, ⟨1, 0⟩], []⟩, ⟨2, .enum, [⟨0, 0⟩, ⟨5, 0⟩], []⟩] = none ∧
           (mergeGroup [⟨3, .object, [⟨0, 7⟩], []⟩, ⟨3, .object, [⟨0, 7⟩, ⟨1, 8⟩], []⟩]).isSome = true := by decide
+
+/-- what a signature is made of (`Ms`, the model of mergeTypesEqual / mergeValuesEqual / mergeArgumentDefinitionList,
+    tied to merge.go by L2.mergesig): two field types are accepted exactly when they are the same type — name,
+    nullability and list structure at every level … -/
+theorem types_accepted_iff_identical (a b : Option Ms.Ty) : Ms.typesEqual a b = true ↔ a = b := Ms.typesEqual_iff a b
+
+/-- … two default values exactly when they are the same value — kind, text, and for lists and objects every child's
+    name and value, at every depth (so `1` and `"1"`, `[1, 2]` and `[3]`, `{a: 1}` and `{a: 2}` are told apart) … -/
+theorem defaults_accepted_iff_identical (a b : Option Ms.V) : Ms.valuesEqual a b = true ↔ a = b := Ms.valuesEqual_iff a b
+
+/-- … and two argument lists only when every argument of the one is, by name, an argument of the other with the same
+    type and the same default, and the lists are equally long -/
+theorem arguments_accepted_only_if_same {l1 l2 : List Ms.ArgDef} (h : Ms.argDefsEq l1 l2 = true) :
+    l1.length = l2.length ∧ ∀ a ∈ l1, ∃ b ∈ l2, b.name = a.name ∧ b.type = a.type ∧ b.default = a.default :=
+  Ms.argDefsEq_subset h
 
 end Props.C09
